@@ -26,3 +26,47 @@ PROPS['C13'] = dict(
     level_note='Trusted: the harness set model (hull / intersection of index ranges) and the sanitizers; grid sizes above the enumeration bound are only sampled.',
     assumptions=[SAN, 'index arithmetic is independent of the grid point values, so enumeration uses one set of points per grid size'],
 )
+
+PROPS['C02'] = dict(
+    units=[dict(target=T('h_eval', parts=4), quick=dict(scale=1.0), thorough=dict(scale=6.0, shards=16))],
+    rule=('random splines (grid 2..10 points incl. far-from-origin and strongly non-uniform, every window kind, order 0..6, Q / float / double / long double) x '
+          'abscissae: every grid point, one generated interior point per grid interval, both support ends and points 1/1000 inside/outside them, points outside the grid, '
+          'far outside, and (floats) one ulp either side of every grid point. Oracle: linear scan + exact power-sum value in the absolute basis; at a shared grid point either '
+          'adjacent piece; outside the closed support exactly 0; front/back = support ends, throw when empty. Every case counts as non-trivial (it evaluates at all grid points and both ends); distinct = distinct case text.'),
+    technique='rapidcheck generation against an exact rational reference evaluation (linear scan, absolute basis)',
+    level_text='Generated-input search with an exact oracle over Q and a stated rounding allowance (64 eps * sum|c_k||x-xm|^k) in the built-in floating types; thousands of splines x all abscissa classes per run. Sampling, not proof.',
+    level_note='Trusted: GMP, the reference model (ref.h), exact float->rational conversion. A point-like spline may either return its point from front()/back() or throw (DESIGN 6.1).',
+    assumptions=[EXACT, SAN, 'NaN abscissae are outside the statement ("all real x") and not generated'],
+)
+PROPS['C15'] = dict(
+    units=[dict(target=T('h_pred'), quick=dict(scale=1.0), thorough=dict(scale=6.0, shards=16))],
+    rule=('random spline pairs by constructed placement class (identical, nested, partial, touching, gap, one/both interval-free), orders 0..4, zero coefficients in none/some/all intervals, Q and double; '
+          'for equality b is derived from a by: independent / copy / one coefficient changed / shifted window / equal grid in a distinct object / one grid point moved / both interval-free. '
+          'Oracles: isZero iff reference function zero (cross-checked by evaluating at order+1 points per interval); checkOverlap iff index sets share two consecutive points iff product of coefficient-generic splines non-zero; '
+          '== iff grids equal and windows equal-or-both-empty and coefficients identical; reflexive, symmetric, copy, != negation. Non-trivial: zero function with intervals or zero-masked intervals, non-identical placement, or derived relation.'),
+    technique='rapidcheck generation against set/function models of the predicates',
+    level_text='Generated-input search against independent models of the three predicates, both directions (iff) checked; sampling, not proof.',
+    level_note='Trusted: reference model and placement classifier; NaN coefficients are outside the statement and not generated (DESIGN 6.11).',
+    assumptions=[EXACT, SAN],
+)
+PROPS['C03'] = dict(
+    units=[dict(target=T('h_arith', parts=3), quick=dict(scale=1.0), thorough=dict(scale=5.0, shards=16))],
+    rule=('(a) operand pairs, orders (0..3)^2, constructed placement classes, rational coefficients/scalars: a+b, b+a, a-b, b-a, a*b, b*a, a*c, c*a, a/c, -a, a*0, += -= *= /=, self += / -=, cross-order assignment; '
+          '(b) linearCombination over 1..6 splines (both overloads, vs operator chain); (c) in-place histories of 1..10 steps on an order-3 accumulator with the model updated alongside. '
+          'Oracle: reference function equality on EVERY grid interval (so results are zero wherever unsupported) + class invariants of every result + operands unchanged. '
+          'Non-trivial: non-identical placement or mixed orders; >= 2 splines; >= 3 steps. Distinct = distinct case text.'),
+    technique='rapidcheck generation, library instantiated with an exact rational scalar, compared interval-by-interval with a reference piecewise-polynomial model',
+    level_text='Exact generated-input search: every identity is checked without tolerance on every grid interval. Sampling of an infinite input family, not proof.',
+    level_note='Trusted: GMP and ref.h (absolute-basis polynomial algebra). a/c is required to denote (1/c)*a, exact in Q (DESIGN 6.12).',
+    assumptions=[EXACT, SAN],
+)
+PROPS['C04'] = dict(
+    units=[dict(target=T('h_prim', parts=4), quick=dict(scale=1.0), thorough=dict(scale=6.0, shards=16))],
+    rule=('full template matrix Dx<n> n=0..5 x order 0..5, X<n> n=0..5 x order 0..4, identity x order 0..5 (per-combination counters in per_subcheck.classes), random grids incl. far from origin, '
+          'all window kinds, Q (all) and double / long double (n <= 3, dyadic inputs for which the operation is exact). Oracle: n-fold derivative / multiplication by x^n of the absolute-basis model, result order, same window, '
+          'zero outside the operand, identity == operand. Non-trivial: non-zero function and (n >= order-1, or |x| > 4, or strict sub-window, or n >= 2 for X).'),
+    technique='rapidcheck generation over the (n, order) template matrix against exact polynomial calculus in the absolute basis',
+    level_text='Exact generated-input search over every compiled (n, order) instantiation; sampling of coefficients/grids, not proof; template parameters limited to the compiled matrix.',
+    level_note='Trusted: GMP, ref.h. n and order above 5 are not instantiated.',
+    assumptions=[EXACT, SAN, 'double/long double sub-cases use dyadic inputs small enough that the operator result is exactly representable'],
+)
